@@ -104,6 +104,13 @@ impl FileWatcher {
             None,
             move |events: DebounceEventResult| match events {
                 Ok(events) => {
+                    if events
+                        .iter()
+                        .all(|event| matches!(event.kind, EventKind::Access(_) | EventKind::Other))
+                    {
+                        // reading the watched files (what a process run does) also produces events
+                        return;
+                    }
                     log::debug!("changes detected, re-running process");
                     self.process_events(events);
                     self.run_worker_tree();
